@@ -58,7 +58,8 @@ Definition c11_pred (args : list val) : bool :=
           | 8 => scheme_same a b && authority_same a b && is_str i_query b [] && is_str i_fragment b []
           | 9 => scheme_same a b && host_same a b && hosttext_same a b && port_same a b
                  && is_none i_raw_user b && is_none i_raw_password b
-                 && is_str i_raw_path b [47] && is_str i_query b [] && is_str i_fragment b []
+                 && (is_str i_raw_path b [47] || (is_str i_netloc b [] && is_str i_raw_path b []))   (* nothing left of an authority without host and port *)
+                 && is_str i_query b [] && is_str i_fragment b []
           | 10 => is_str i_scheme b [] && is_str i_netloc b [] && is_none i_raw_host b && is_none i_explicit_port b
                   && is_none i_raw_user b && is_none i_raw_password b
                   && query_same a b && fragment_same a b
@@ -71,8 +72,30 @@ Definition c11_pred (args : list val) : bool :=
   end.
 
 (** known-finding classifiers on the base of a modifier call (5th argument) *)
+Fixpoint set_nth (i : nat) (x : val) (l : list val) : list val :=
+  match i, l with
+  | O, _ :: r => x :: r
+  | S j, y :: r => y :: set_nth j x r
+  | _, [] => []
+  end.
+(** F7 exactly: the base's eagerly stored host is '' and the ONLY thing wrong with the result
+    is that it reports the host the way a lazy split does (raw_host, host_subcomponent,
+    host_port_subcomponent None): the predicate holds once the base observation is read
+    that way.  Anything else about the result being wrong is not absorbed. *)
 Definition kf_f7_base (args : list val) : bool :=
-  match nth 4 args WNone with
-  | WList _ as a => match nthv i_raw_host a with WStr [] => true | _ => false end
+  match args with
+  | [k; kq; kf; isnone; WList a; b] =>
+      match nth i_raw_host a WNone with
+      | WStr [] =>
+          let a' := set_nth i_raw_host WNone (set_nth i_host_sub WNone (set_nth i_host_port_sub WNone a)) in
+          c11_pred [k; kq; kf; isnone; WList a'; b]
+          (* ... or origin() of such a URL whose parts are split lazily: the host is None there, make_netloc(None) is ''
+             and the result is just "scheme:" (the port is lost with the host) *)
+          || (match k with
+              | WNat 9 => is_str i_netloc b [] && scheme_same (WList a) b && is_str i_raw_path b []
+                          && is_str i_query b [] && is_str i_fragment b [] && is_none i_raw_host b
+              | _ => false end)
+      | _ => false
+      end
   | _ => false
   end.
